@@ -29,6 +29,10 @@ def cases(ctx):
     yield {"kind": "lbpmap", "P": 8}
     for P in ([4, 6, 10, 12] if ctx.tier == "quick" else list(range(1, 17))):
         yield {"kind": "lbpmap", "P": P}
+    # more than 16 points (LBP(24,3) is a standard operator): the 2**P codes are sampled -- bit runs, single bits, alternating
+    # patterns, their rotations, and random words
+    for P in ([17, 24, 31] if ctx.tier == "quick" else [17, 18, 20, 23, 24, 28, 31, 32]):
+        yield {"kind": "lbpmap_sampled", "P": P, "seed": rng.randrange(1 << 30)}
     n = 350 if ctx.tier == "quick" else 4000
     for i in range(n):
         kind = rng.choice(["cooc", "cooc", "haralick", "lbp", "zernike", "moments", "integral", "integral"])
@@ -150,6 +154,28 @@ def run_case(ctx, case):
             if len({want[c] for c in cls}) != 1 or want[v] != min(cls):
                 return Result(False, True, {"why": "rotation class not mapped to one bin", "P": P, "code": v})
         return Result(True, True, None, "lbpmap/P%d" % P)
+    if kind == "lbpmap_sampled":
+        import random as _r
+        P = case["P"]
+        r2 = _r.Random(case["seed"])
+        mask = (1 << P) - 1
+        codes = {0, mask, 1, 1 << (P - 1), (1 << (P // 2)) - 1, int("01" * 16, 2) & mask, int("011" * 11, 2) & mask}
+        for _ in range(300):
+            codes.add(r2.getrandbits(P))
+            k, w = r2.randrange(P), r2.randint(1, P)
+            run = ((1 << w) - 1) & mask
+            codes.add(((run << k) | (run >> (P - k))) & mask)          # a run of w ones starting at bit k (cyclically)
+        for v in list(codes)[:200]:
+            k = r2.randrange(P)
+            codes.add(((v >> k) | (v << (P - k))) & mask)              # a rotation of a code already present
+        codes = sorted(codes)
+        got = _lbp.map(np.array(codes, dtype=np.uint32), P)
+        want = ctx.model.ints("lbp_map %d %s" % (P, enc_list(codes)))[0]
+        for c, g, w in zip(codes, got, want):
+            mn = min(((c >> k) | (c << (P - k))) & mask for k in range(P))
+            if int(g) != w or w != mn:
+                return Result(False, True, {"why": "_lbp.map != least rotation", "P": P, "code": c, "got": int(g), "model": w, "least_rotation": mn})
+        return Result(True, True, None, "lbpmap/P%d/sampled" % P)
     a0 = np.array(case["vals"], dtype=np.dtype(case.get("dtype", "float64"))).reshape(case["shape"])
     a = apply_layout(a0, case["layout"], fill=1)
     keep = a.copy()
